@@ -684,6 +684,29 @@ func c01Conversions(w *World, r *Report) {
 		}
 		var floor *ssa.Call
 		imprecise := false
+		// the rounding itself: in round(), or in the helper of the package it shares with substring()
+		for _, g := range bodiesDeep(f, 0) {
+			if g.Pkg != f.Pkg || g == f {
+				continue
+			}
+			for _, b := range g.Blocks {
+				for _, in := range b.Instrs {
+					if c, ok := in.(*ssa.Call); ok && c.Call.StaticCallee() != nil && c.Call.StaticCallee().String() == "math.Floor" {
+						has := false
+						for _, fb := range f.Blocks {
+							for _, fin := range fb.Instrs {
+								if fc, isC := fin.(*ssa.Call); isC && fc.Call.StaticCallee() != nil && fc.Call.StaticCallee().String() == "math.Floor" {
+									has = true
+								}
+							}
+						}
+						if !has {
+							f = g
+						}
+					}
+				}
+			}
+		}
 		for _, b := range f.Blocks {
 			for _, in := range b.Instrs {
 				c, ok := in.(*ssa.Call)
